@@ -243,7 +243,11 @@ func genC17(g *Gen, tier string) *Program {
 				var spec *BucketSpec
 				if kind == "hist" {
 					if g.Bool(50) {
-						spec = &BucketSpec{Bits: []uint64{f64bits(0), f64bits(1), f64bits(2.5), f64bits(10)}}
+						vs := [][]float64{{0, 1, 2.5, 10}, {0, 1, 2.5, 10}, {1, 2, 3, 4}, {-5, 0.5, 7, 100}, {0.125, 0.25, 0.5, 1}}[g.Intn(5)]
+						spec = &BucketSpec{}
+						for _, v := range vs {
+							spec.Bits = append(spec.Bits, f64bits(v))
+						}
 					} else {
 						spec = &BucketSpec{Dur: true, Durs: []int64{1e6, 5e8, 1e9, 2e9}}
 						if g.Bool(60) {
@@ -261,12 +265,15 @@ func genC17(g *Gen, tier string) *Program {
 							}
 						}
 					}
+					if g.Bool(35) {
+						op.N = -1 // the caller builds every bucket set in one scratch slice
+					}
 					if !conflict {
 						// a histogram name always goes with one bucket set
 						if spec.Dur {
 							op.Name += fmt.Sprintf("_d%d", specHash(spec))
 						} else {
-							op.Name += "_v"
+							op.Name += fmt.Sprintf("_v%d", int(f64from(spec.Bits[3])*8))
 						}
 					}
 					op.B = spec
@@ -295,7 +302,11 @@ func genC17(g *Gen, tier string) *Program {
 						}
 						ops = append(ops, Op{K: "recd", M: m.m, I: v})
 					} else {
-						ops = append(ops, Op{K: "recv", M: m.m, F: f64bits(pick(g, -1.0, 0, 0.5, 1, 2.5, 2.6, 10, 11))})
+						v := pick(g, -1.0, 0, 0.5, 1, 2.5, 2.6, 10, 11)
+						if g.Bool(50) {
+							v = f64from(m.spec.Bits[g.Intn(len(m.spec.Bits))]) + pick(g, 0.0, 0, 0.0625, -0.0625)
+						}
+						ops = append(ops, Op{K: "recv", M: m.m, F: f64bits(v)})
 					}
 				}
 			case 3:
@@ -494,6 +505,47 @@ func checkC17(env *Env) []Violation {
 			if s.count != uint64(len(w.samples)) {
 				out = append(out, vf("histogram-count", "histogram %q %v: Gather shows %d samples, %d recorded", w.name, w.tags, s.count, len(w.samples)))
 				continue
+			}
+			// "at each bound": the exposed bounds are the histogram's own
+			if w.spec != nil {
+				var want []float64
+				if w.spec.Dur {
+					for _, d := range w.spec.Durs {
+						want = append(want, float64(d)/float64(time.Second))
+					}
+				} else {
+					for _, b := range w.spec.Bits {
+						want = append(want, f64from(b))
+					}
+				}
+				missing := ""
+				for _, x := range want {
+					found := false
+					for ub := range s.buckets {
+						if ub == x || math.Abs(ub-x) <= 1e-12*math.Abs(x) {
+							found = true
+						}
+					}
+					if !found {
+						missing = fmt.Sprint(x)
+						break
+					}
+				}
+				finite := 0
+				for ub := range s.buckets {
+					if !math.IsInf(ub, 1) {
+						finite++
+					}
+				}
+				if missing != "" || finite != len(want) {
+					var have []float64
+					for ub := range s.buckets {
+						have = append(have, ub)
+					}
+					sort.Float64s(have)
+					out = append(out, vf("histogram-bounds", "histogram %q %v: Gather shows the bounds %v, it was created with %v", w.name, w.tags, have, want))
+					continue
+				}
 			}
 			for ub, cum := range s.buckets {
 				if math.IsInf(ub, 1) {
